@@ -811,6 +811,7 @@ def mc_call_spec(ctx: Ctx):
     v = validity_of(mc_kind(h, c), y, m, d)
     k_u, k_t = rkey(v, uc), rkey(v, tc.t)
     req = [wf_conv(h, c), wf_qty(h, q.t), cls_of(h, q.t) == M.C_MONEY,
+           wf_currency(h, uc),
            wf_currency(h, tc.t), convinv_at(h, c, k_u), convinv_at(h, c, k_t),
            uc != tc.t]       # same currency: known finding F4 (get_rate raises)
     no_kind = mc_kind_none(h, c)
